@@ -6,7 +6,9 @@
 
 """utilities for generating and formatting literal Python code."""
 
+import io
 import re
+import tokenize
 
 from mako import exceptions
 
@@ -241,8 +243,10 @@ class PythonPrinter:
         stripspace = None
         self._reset_multi_line_flags()
 
-        for entry in self.line_buffer:
-            if self._in_multi_line(entry):
+        flags = _multi_line_flags(self.line_buffer)
+
+        for idx, entry in enumerate(self.line_buffer):
+            if self._in_multi_line(entry) if flags is None else flags[idx]:
                 self.stream.write(entry + "\n")
             else:
                 entry = _expand_margin_tabs(entry)
@@ -252,6 +256,56 @@ class PythonPrinter:
 
         self.line_buffer = []
         self._reset_multi_line_flags()
+
+
+def _multi_line_flags(lines):
+    """for each line of a block of Python code, tell if it begins inside of
+    a string literal or continues a line ended with a backslash - that is,
+    if its leading whitespace is not indentation.
+
+    Returns None if the block can't be tokenized.
+
+    """
+
+    flags = [False] * len(lines)
+    source = "\n".join(lines) + "\n"
+    fstring_depth = 0
+    fstring_start = None
+    last_token_end = {}
+    try:
+        for tok in tokenize.generate_tokens(io.StringIO(source).readline):
+            start, end = tok.start[0], tok.end[0]
+            name = tokenize.tok_name[tok.type]
+            if name == "FSTRING_START":
+                if fstring_depth == 0:
+                    fstring_start = start
+                fstring_depth += 1
+            elif name == "FSTRING_END":
+                fstring_depth -= 1
+                if fstring_depth == 0:
+                    for lineno in range(fstring_start + 1, end + 1):
+                        flags[lineno - 1] = True
+            elif tok.type == tokenize.STRING and end > start:
+                for lineno in range(start + 1, end + 1):
+                    flags[lineno - 1] = True
+            if tok.type not in (
+                tokenize.NEWLINE,
+                tokenize.NL,
+                tokenize.INDENT,
+                tokenize.DEDENT,
+                tokenize.ENDMARKER,
+            ):
+                last_token_end[end] = (tok.type, tok.end[1])
+    except (tokenize.TokenError, SyntaxError, IndentationError):
+        return None
+
+    for idx, line in enumerate(lines[:-1]):
+        if line.endswith("\\") and not flags[idx + 1]:
+            # a backslash at the end of a comment continues nothing
+            toktype, col = last_token_end.get(idx + 1, (None, 0))
+            if not (toktype == tokenize.COMMENT and col >= len(line)):
+                flags[idx + 1] = True
+    return flags
 
 
 def _expand_margin_tabs(line):
@@ -308,8 +362,11 @@ def adjust_whitespace(text):
     lines = []
     stripspace = None
 
-    for line in re.split(r"\r?\n", text):
-        if in_multi_line(line):
+    source_lines = re.split(r"\r?\n", text)
+    flags = _multi_line_flags(source_lines)
+
+    for idx, line in enumerate(source_lines):
+        if in_multi_line(line) if flags is None else flags[idx]:
             lines.append(line)
         else:
             line = _expand_margin_tabs(line)
